@@ -73,6 +73,7 @@ func h17() {
 	fault := verifChoice(nplug + 2) // 0 none, 1 core generator, 2+k plugin k
 	zzFailModule = fault == 1
 	var msg plugin.MultiServiceGenerator
+	var allPaths [][]string
 	for p := 0; p < nplug; p++ {
 		sg := &zzSG{files: map[string][]byte{}, fail: fault == 2+p}
 		cnt := 1 + verifChoice(nfiles)
@@ -86,8 +87,17 @@ func h17() {
 				verifAssume(k != path) // map keys of one response are distinct by construction
 			}
 			sg.files[path] = []byte("plugin")
+			for len(allPaths) <= p {
+				allPaths = append(allPaths, nil)
+			}
+			allPaths[p] = append(allPaths[p], path)
 		}
-		msg = append(msg, plugin.ZzNewServiceGenerator([]string{"p0", "p1"}[p], sg))
+		// two instances of one plugin carry the same name (-p "x --a" -p "x --b")
+		pname := []string{"p0", "p1"}[p]
+		if p == 1 && verifChoice(2) == 1 {
+			pname = "p0"
+		}
+		msg = append(msg, plugin.ZzNewServiceGenerator(pname, sg))
 	}
 
 	m := &compile.Module{
@@ -110,6 +120,27 @@ func h17() {
 	}
 	if err != nil {
 		verifAssert(len(zzWrites) == 0, "nothing-written-on-error")
+	}
+	if err == nil {
+		// two plugin instances (same name or not) producing the same path must
+		// have been reported
+		same := 0
+		for p := 0; p < len(allPaths); p++ {
+			for q := p + 1; q < len(allPaths); q++ {
+				for _, a := range allPaths[p] {
+					for _, b := range allPaths[q] {
+						if len(a) == len(b) {
+							e := 1
+							for i := 0; i < len(a); i++ {
+								e &= verifB2I(a[i] == b[i])
+							}
+							same |= e
+						}
+					}
+				}
+			}
+		}
+		verifAssert(same == 0, "cross-plugin-duplicate-reported")
 	}
 	seen := map[string]bool{}
 	for _, w := range zzWrites {
